@@ -135,8 +135,10 @@ def run(rep, pdb, tier):
             okc = sdef is not None and sdef[0] == "call" and str(sdef[1]).endswith("Mesh1D<T, X>::new") and sdef[2] == F(P(0), nodes_field) and sdef[3] == NV
             v = r[0] if r else None
             want_get = ("call", "%s::get_nodes_vars" % M2, P(0), P(1), v) if fixed_pos == 1 else ("call", "%s::get_nodes_vars" % M2, P(0), v, P(1))
-            ok = r is not None and r[1:5] == (num(0), count, False, False) and a[1] == v and a[2] == want_get and okc and ctx.term(fn["body"]["expr"]) == sec
-            det = "section on %s=%s full range=%s copies get(%s) to node=%s" % (nodes_field, okc, r is not None and r[1:5] == (num(0), count, False, False), "nodex, v" if fixed_pos == 1 else "v, nodey", a[2] == want_get)
+            # ... or the accessor's body written out: a clone of the same storage slot (flat-index/* proves the slot in range)
+            want_slot = ("idx", VARS, flat(P(1), v)) if fixed_pos == 1 else ("idx", VARS, flat(v, P(1)))
+            ok = r is not None and r[1:5] == (num(0), count, False, False) and a[1] == v and a[2] in (want_get, want_slot) and okc and ctx.term(fn["body"]["expr"]) == sec
+            det = "section on %s=%s full range=%s copies get(%s) to node=%s" % (nodes_field, okc, r is not None and r[1:5] == (num(0), count, False, False), "nodex, v" if fixed_pos == 1 else "v, nodey", a[2] in (want_get, want_slot))
         rep.add("cross-sections/%s" % name, rule, ok, fn["body"], det, where=loc(fn["body"]))
     # ---- var_as_matrix
     fn = pdb.fn("%s::var_as_matrix" % M2)
